@@ -239,8 +239,42 @@ func (b *Body) instr(in ssa.Instruction, blk *ssa.BasicBlock, reach *T, st State
 
 func (b *Body) freshRef(v ssa.Value) *T {
 	ft := b.ft
+	// every reference computed before this allocation designates an older
+	// object: the new one is distinct from all of them
+	var older []*T
+	seen := map[string]bool{}
+	for bb := b; bb != nil; bb = bb.parent {
+		for ov, val := range bb.vals {
+			if val == nil || val.T == nil || val.Tuple != nil || ov == v {
+				continue
+			}
+			if _, isConst := ov.(*ssa.Const); isConst {
+				continue
+			}
+			if ft.sortOf(val.Type) != "Ref" {
+				continue
+			}
+			k := val.T.String()
+			if !seen[k] {
+				seen[k] = true
+				older = append(older, val.T)
+			}
+		}
+		for _, val := range bb.tupleRefs {
+			k := val.String()
+			if !seen[k] {
+				seen[k] = true
+				older = append(older, val)
+			}
+		}
+	}
 	x := b.declVal(v)
 	ft.fact(Not(Eq(x.T, L("nil"))))
+	for _, o := range older {
+		if o.String() != x.T.String() {
+			ft.fact(Not(Eq(x.T, o)))
+		}
+	}
 	ft.allocRefs = append(ft.allocRefs, x.T)
 	return x.T
 }
@@ -725,10 +759,14 @@ func (b *Body) next(x *ssa.Next, blk *ssa.BasicBlock, reach *T, st State) {
 	ft.fact(Imp(reach, A("<=", Int(0), idx)))
 	ft.fact(Eq(tv.Tuple[0].T, ok))
 	key := Sel(info.keys, idx)
-	ft.fact(Imp(ok, Eq(tv.Tuple[1].T, key)))
+	if ft.sortOf(tv.Tuple[1].Type) == info.ksort {
+		ft.fact(Imp(ok, Eq(tv.Tuple[1].T, key)))
+	}
 	// value read from the *current* map contents (Go semantics)
 	mvr := "MV." + info.ksort + "->" + info.vsort
-	ft.fact(Imp(ok, Eq(tv.Tuple[2].T, Sel(Sel(ft.region(st, mvr), info.m), key))))
+	if ft.sortOf(tv.Tuple[2].Type) == info.vsort {
+		ft.fact(Imp(ok, Eq(tv.Tuple[2].T, Sel(Sel(ft.region(st, mvr), info.m), key))))
+	}
 	nv := ft.fresh("it", "Int")
 	ft.fact(Eq(nv, Ite(ok, A("+", idx, Int(1)), idx)))
 	st[reg] = nv
